@@ -162,7 +162,7 @@ fn guess_frequency(raw_freq: f64, base_guess: f64, tolerance: f64) -> Option<f64
     }
     let normalized = raw_freq / multiplier;
     if (normalized - base_guess).abs() <= base_guess * tolerance {
-        Some(base_guess)
+        Some(base_guess * multiplier)
     } else {
         None
     }
